@@ -46,7 +46,26 @@ to 3x3 to depth 3 (endpara) / 2 (quick; thorough: 3, and shapes with a side of 4
 (8) every top-level table of the repository's PowerPoint-authored decks (12 tables, up to 4x5, two
 with pre-existing merged regions) is an initial state as it is: the model starts from the bare-lxml
 reading of the file (regions, paragraphs, sizes; frame size == sum is demanded from the first size
-assignment on unless it already held in the file); depth 2 (<= 9 cells) / 1 in quick, 3 / 2 thorough.
+assignment on unless it already held in the file); depth 2 (<= 9 cells) / 1 in quick, 3 / 2 thorough;
+row-height / column-width assignments are part of the alphabet on EVERY corpus table (one of them, 4x4, is
+the only table of the corpus whose frame is taller than the sum of its row heights — PowerPoint does not
+write auto-grown row heights back);
+(9) starting states / histories in which the frame size does NOT equal the sum: the alphabet of the
+full-depth configurations with size assignments (API-built 'letters' tables up to 3x3, corpus tables up to
+9 cells) also holds `graphic_frame.width = v` / `graphic_frame.height = v`, v in {7, 2000001} — the caller
+resizing the frame, which does not rescale rows / columns.  The model then knows nothing about that frame
+dimension (nothing is demanded of it, weak reading) until the next column-width / row-height assignment,
+after which the statement's last clause demands frame == sum again.  The run counts the size assignments
+executed from an (observed) out-of-sync frame and refuses to pass vacuously (floor 100);
+(10) blank paragraphs: per-cell paragraph alphabet KINDS = every sequence of one or two paragraphs each
+blank or carrying text (b, t, bb, bt, tb, tt).  Text configuration 'blanks' (the six kinds in rotation, the
+top-left cell starting with a blank paragraph) runs next to 'letters' / 'mixed' on every shape (depth 3 up to
+3x3, depth 2 with a side of 4); and EVERY assignment of the six kinds to the cells ('k:<digit per cell>',
+6**(r*c) configurations per shape, closed form asserted) is an initial state on the shapes 1x1, 1x2, 2x1,
+1x3, 3x1, 2x2 (1806 configurations, depth 1 quick; thorough: depth 3, 2x2 depth 2, plus 1x4 / 4x1 at depth
+1).  The text oracle is unchanged: blank paragraphs of a cell that is not exactly one empty paragraph move
+with it; the verdict compares the non-empty paragraph sequence first (weak reading) and reports a
+blank-only difference under its own detail.
 
 Signatures: `C14|<family>|<rule>:<detail>|<r>x<c>|<creation path, text cfg, size variant>|<history>`.
 Violating transitions are grouped by rule family (rectangular / regions / text / sizes / refusal /
@@ -76,11 +95,15 @@ RULE = ("states: distinct sha1(c14n(a:tbl)+frame cx,cy) per table configuration 
         "the depth bound, EVERY operation of the alphabet — cell(a).merge(cell(b)) for every ordered pair of "
         "cells (all four corner orientations, a==b included), cell.split() for every cell, merge with a cell "
         "of a second table in both directions for every cell, rows[i].height=v / columns[j].width=v for every "
-        "row/column and v in {11, 1000003} — each executed on the real implementation and compared with the "
+        "row/column and v in {11, 1000003}, and (configurations with frame operations) graphic_frame.width=v / "
+        ".height=v for v in {7, 2000001} — each executed on the real implementation and compared with the "
         "table_ref model (expected: merged / refused-and-unchanged / split / resized) and, when the state "
         "changed, followed by the full state check (public API + bare-lxml view). A transition is non-trivial "
         "(and distinct by construction: each (state, operation) pair is executed once) unless it is a merge of "
-        "one unmerged cell with itself or an assignment of the value already present.")
+        "one unmerged cell with itself or an assignment of the value already present. Text configurations: "
+        "letters, mixed, blanks, and the full product of the six paragraph kinds (b,t,bb,bt,tb,tt) over the cells "
+        "of the shapes with at most 3 cells and 2x2 (the product contains the all-'t' assignment, which repeats "
+        "the 'letters' table of that shape: 6 of 1806 initial states are duplicates of another configuration).")
 ASSUMPTIONS = [
     "bounded: shapes r,c in 1..3 to depth 3 and shapes with a side of 4 to depth 2 (quick); all shapes up to 4x4 "
     "to depth 3 (thorough); depth 1 from every single-rectangle merged state of a 6x6 table (thorough) / of a 5x5 "
@@ -89,8 +112,16 @@ ASSUMPTIONS = [
     "replaced by the exhaustive depth-1 exploration from every single-rectangle state of a 6x6 (quick: 5x5) table",
     "full-depth search on the (non-divisible, non-divisible) size variant only; the other 8 (width,height) "
     "variants (divisible / non-divisible / smaller than the count) are explored to depth 1",
-    "text alphabet: a distinct letter in every cell; plus a 'mixed' configuration with empty cells and "
-    "two-paragraph cells; formatted runs / line breaks / fields only as far as the corpus tables have them",
+    "text alphabet: a distinct letter in every cell; a 'mixed' configuration with empty cells and two-paragraph "
+    "cells; a 'blanks' configuration rotating the six paragraph kinds b,t,bb,bt,tb,tt (b = blank paragraph, t = "
+    "paragraph with text); every assignment of the six kinds to the cells only on shapes with <= 3 cells and 2x2 "
+    "(thorough: also 1x4, 4x1); three or more paragraphs per cell only as produced by earlier merges; formatted "
+    "runs / line breaks / fields only as far as the corpus tables have them",
+    "frame size vs sum: the caller's frame resize (two values per dimension) is interleaved to full depth only on "
+    "API-built 'letters' tables up to 3x3 and corpus tables up to 9 cells; on larger corpus tables row/column "
+    "assignments are explored without it. While the frame is out of sync (file said so, or the caller resized it) "
+    "nothing is demanded of that frame dimension; frame == sum is demanded after every row-height (column-width) "
+    "assignment for the height (width)",
     "text oracle: origin paragraphs == paragraphs of the merged cells in row-major order, a cell with a single "
     "empty paragraph (in any XML form) contributing nothing; cells of a region other than the origin read as empty",
     "foreign XML forms (a:endParaRPr / a:pPr-only empty paragraphs, no a:tblPr) are produced by a harness-side "
@@ -111,6 +142,7 @@ A = "{%s}" % NS_A
 P = "{%s}" % NS_P
 
 SIZE_VALUES = (11, 1000003)
+FRAME_VALUES = (7, 2000001)   # the caller resizes the graphic frame: smaller / larger than any sum reachable
 VARIANTS = ("div", "nondiv", "small")
 PH_FILE = os.path.join(os.environ.get("VERIF_REPO", "/repo"), "features", "steps", "test_files",
                        "ph-unpopulated-placeholders.pptx")
@@ -212,9 +244,33 @@ def scan_table(gf_element):
     return out
 
 
+# per-cell paragraph alphabet: EVERY sequence of one or two paragraphs each of which is blank (b) or carries
+# text (t) — 2 + 4 = 6 kinds; kind 0 is the empty cell, kind 1 the one-paragraph cell of the 'letters' configuration
+KINDS = ("b", "t", "bb", "bt", "tb", "tt")
+BLANKS_ROTATION = (3, 1, 4, 0, 5, 2)   # 'blanks': the top-left cell (origin of most merges) starts with a blank paragraph
+PRODUCT_SHAPES_QUICK = ((1, 1), (1, 2), (2, 1), (1, 3), (3, 1), (2, 2))
+PRODUCT_SHAPES_THOROUGH = PRODUCT_SHAPES_QUICK + ((1, 4), (4, 1))
+TXT_ORDER = ("letters", "mixed", "blanks", "corpus")
+
+
+def kind_paragraphs(kind, L):
+    """Paragraph list of one cell for a pattern over {b, t}; text paragraphs read L (one) or L1, L2 (two)."""
+    nt = kind.count("t")
+    out, n = [], 0
+    for ch in kind:
+        if ch == "b":
+            out.append("")
+        else:
+            n += 1
+            out.append(L if nt == 1 else "%s%d" % (L, n))
+    return out
+
+
 def cfg_texts(cfg):
     """Paragraph lists per cell for a configuration."""
     _via, r, c, _wv, _hv, txt, _depth, _sz, _ori = cfg
+    if txt.startswith("k:") and (len(txt) != 2 + r * c or any(ch not in "012345" for ch in txt[2:])):
+        raise HarnessError("bad text configuration %r for %dx%d" % (txt, r, c))
     out = []
     for i in range(r):
         row = []
@@ -223,8 +279,14 @@ def cfg_texts(cfg):
             L = LETTERS[k]
             if txt == "letters":
                 row.append([L])
-            else:  # mixed: empty / one paragraph / two paragraphs, the top-left cell is empty
+            elif txt == "mixed":  # empty / one paragraph / two paragraphs, the top-left cell is empty
                 row.append([[""], [L], [L + "1", L + "2"]][k % 3])
+            elif txt == "blanks":  # the six kinds in rotation
+                row.append(kind_paragraphs(KINDS[BLANKS_ROTATION[k % 6]], L))
+            elif txt.startswith("k:"):  # one digit per cell (row-major): index into KINDS
+                row.append(kind_paragraphs(KINDS[int(txt[2 + k])], L))
+            else:
+                raise HarnessError("unknown text configuration %r" % (txt,))
         out.append(row)
     return out
 
@@ -238,7 +300,8 @@ def cfg_rank(cfg):
     via, r, c, wv, hv, txt = cfg[:6]
     wi = VARIANTS.index(wv) if wv in VARIANTS else 9  # placeholder-created / corpus tables have no size variant
     hi = VARIANTS.index(hv) if hv in VARIANTS else 9
-    return (r * c, r, c, VIA_ORDER.index(via) if via in VIA_ORDER else 9, via, 0 if txt == "letters" else 1,
+    return (r * c, r, c, VIA_ORDER.index(via) if via in VIA_ORDER else 9, via,
+            TXT_ORDER.index(txt) if txt in TXT_ORDER else 9, txt,
             0 if (wv, hv) == ("nondiv", "nondiv") else 1, wi, hi)
 
 
@@ -263,6 +326,11 @@ def ops_for(cfg, restricted_orientation=False):
         for j in range(c):
             for v in SIZE_VALUES:
                 ops.append(("w", j, v))
+    if size_ops >= 2:  # the caller resizes the graphic frame itself (rows / columns are not rescaled by that)
+        for v in FRAME_VALUES:
+            ops.append(("X", v))
+        for v in FRAME_VALUES:
+            ops.append(("Y", v))
     return ops
 
 
@@ -436,6 +504,10 @@ def apply_op(live, op):
             table.rows[op[1]].height = op[2]
         elif k == "w":
             table.columns[op[1]].width = op[2]
+        elif k == "X":
+            live.gf.width = op[1]
+        elif k == "Y":
+            live.gf.height = op[1]
         else:
             raise HarnessError("unknown op %r" % (op,))
     except HarnessError:
@@ -445,7 +517,16 @@ def apply_op(live, op):
     return None
 
 
-OPNAME = {"m": "merge", "s": "split", "f": "merge_foreign", "h": "set_row_height", "w": "set_col_width"}
+OPNAME = {"m": "merge", "s": "split", "f": "merge_foreign", "h": "set_row_height", "w": "set_col_width",
+          "X": "set_frame_size", "Y": "set_frame_size"}
+
+
+def frame_ext(gf_element):
+    """(cx, cy) of the frame, bare-lxml reading of the live element."""
+    ext = gf_element.find(P + "xfrm/" + A + "ext")
+    if ext is None:
+        return (None, None)
+    return (int(ext.get("cx")), int(ext.get("cy")))
 
 
 # ---- state check ------------------------------------------------------------------------------------
@@ -783,19 +864,31 @@ def _expand(part, chunk):
         restricted = bool(ori) and len(hist) >= 1
         before = c14n(live.gf.element)
         fbefore = c14n(live.foreign.element)
+        cx0, cy0 = frame_ext(live.gf.element)
         for op in ops_for(cfg, restricted):
             part.count("transitions")
             pr, label, why, outcome, canon, nxt, dirty = step(env, live, model, op, before, fbefore, stats, cfg_idx)
             part.count("traces_validated_against_impl")
-            same_value = (op[0] == "h" and model.heights[op[1]] == op[2]) or (op[0] == "w" and model.widths[op[1]] == op[2])
+            same_value = ((op[0] == "h" and model.heights[op[1]] == op[2]) or (op[0] == "w" and model.widths[op[1]] == op[2])
+                          or (op[0] == "X" and cx0 == op[1]) or (op[0] == "Y" and cy0 == op[1]))
             extra = ""
             if op[0] in "hw":
+                insync = model.sync_h if op[0] == "h" else model.sync_w
                 extra = "/same-value" if same_value else ("/%s-merged-table" % ("on" if model.regions() else "on-un"))
+                extra += "/frame-%s-before" % ("in-sync" if insync else "out-of-sync")
+            elif op[0] in "XY":
+                extra = "/%s/%s" % ("width" if op[0] == "X" else "height",
+                                    "same-value" if same_value else
+                                    ("raised" if nxt is None else "now-in-sync" if (nxt.sync_w if op[0] == "X" else nxt.sync_h)
+                                     else "now-out-of-sync"))
             elif op[0] == "f":
                 extra = "/this.merge(other)" if op[3] == 0 else "/other.merge(this)"
             part.outcome(OPNAME[op[0]], "%s/%s/%s%s" % (why, label, outcome, extra))
             if label != NOOP and not same_value:
                 part.count("nontrivial_count")
+            if not same_value and ((op[0] == "h" and cy0 != sum(model.heights)) or (op[0] == "w" and cx0 != sum(model.widths))):
+                # the last clause of the statement, from a state in which the frame did NOT equal the sum (observed)
+                part.count("size_assignments_from_out_of_sync_frame")
             if pr:
                 report(cfg, hist, op, pr)
             elif canon is not None:
@@ -811,6 +904,7 @@ def _expand(part, chunk):
                 live = env.build(cfg, hist)
                 before = c14n(live.gf.element)
                 fbefore = c14n(live.foreign.element)
+                cx0, cy0 = frame_ext(live.gf.element)
     for (ci, canon), h in succ.items():
         part.add("succ", (ci, canon, h))
     for fam, (key, what, js) in viol.items():
@@ -827,8 +921,11 @@ def make_cfgs(thorough, have_ph, corpus_tables=()):
             big = max(r, c) >= 4
             depth = 3 if (thorough or not big) else 2
             # main variant: full depth; size assignments interleaved on tables up to 3x3
-            cfgs.append(("api", r, c, "nondiv", "nondiv", "letters", depth, 0 if big else 1, 0))
+            # (size_ops 2 = row/column assignments AND the caller resizing the frame)
+            cfgs.append(("api", r, c, "nondiv", "nondiv", "letters", depth, 0 if big else 2, 0))
             cfgs.append(("api", r, c, "nondiv", "nondiv", "mixed", depth if (thorough or not big) else 2, 0, 0))
+            # blank paragraphs before / after / without text paragraphs, the six kinds in rotation
+            cfgs.append(("api", r, c, "nondiv", "nondiv", "blanks", 2 if big else 3, 0, 0))
             for wv in VARIANTS:
                 for hv in VARIANTS:
                     if (wv, hv) != ("nondiv", "nondiv"):
@@ -846,16 +943,29 @@ def make_cfgs(thorough, have_ph, corpus_tables=()):
             cfgs.append(("api/endpara", r, c, "nondiv", "nondiv", "mixed", d3, 0, 0))
             cfgs.append(("api/ppr", r, c, "nondiv", "nondiv", "mixed", d2, 0, 0))
             cfgs.append(("api/notblpr", r, c, "nondiv", "nondiv", "letters", d2, 0, 0))
-    # tables of the PowerPoint-authored corpus decks, as they are
+    cfgs.extend(product_cfgs(thorough))
+    # tables of the PowerPoint-authored corpus decks, as they are; size assignments on every one of them (their
+    # frame need not equal the sum to begin with), the caller's frame resize interleaved on the small ones
     for via, r, c in corpus_tables:
         small = r * c <= 9
         depth = (3 if small else 2) if thorough else (2 if small else 1)
-        cfgs.append((via, r, c, "corpus", "corpus", "corpus", depth, 1 if small else 0, 0))
+        cfgs.append((via, r, c, "corpus", "corpus", "corpus", depth, 2 if small else 1, 0))
     # 6x6: every rectangle, then every pair / split from each single-rectangle state
     # (quick: a 5x5 table and one orientation per pair at the second level; thorough: 6x6, all four orientations)
     big_n = 6 if thorough else 5
     cfgs.append(("api", big_n, big_n, "nondiv", "nondiv", "letters", 2, 0, 0 if thorough else 1))
     return cfgs
+
+
+def product_cfgs(thorough):
+    """Every assignment of the six paragraph kinds to the cells of the small shapes (6**(r*c) per shape)."""
+    import itertools
+    out = []
+    for r, c in (PRODUCT_SHAPES_THOROUGH if thorough else PRODUCT_SHAPES_QUICK):
+        depth = 1 if (not thorough or max(r, c) >= 4) else (2 if r * c >= 4 else 3)
+        for digits in itertools.product("012345", repeat=r * c):
+            out.append(("api", r, c, "nondiv", "nondiv", "k:" + "".join(digits), depth, 0, 0))
+    return out
 
 
 def discover_corpus_tables():
@@ -895,6 +1005,13 @@ def run(ctx):
             and len(corpus_tables) < 5:
         raise HarnessError("only %d corpus tables found (floor 5): %r" % (len(corpus_tables), skipped))
     _CFGS = make_cfgs(ctx.thorough, have_ph, corpus_tables)
+    shapes = PRODUCT_SHAPES_THOROUGH if ctx.thorough else PRODUCT_SHAPES_QUICK
+    n_product = sum(1 for cfg in _CFGS if cfg[5].startswith("k:"))
+    if n_product != sum(len(KINDS) ** (r * c) for r, c in shapes) or len(set(_CFGS)) != len(_CFGS):
+        raise HarnessError("text-kind product: %d configurations, closed form %d"
+                           % (n_product, sum(len(KINDS) ** (r * c) for r, c in shapes)))
+    ctx.extra["text_kind_product"] = {"kinds": list(KINDS), "shapes": ["%dx%d" % s_ for s_ in shapes],
+                                      "configurations": n_product}
     budget_s = float(os.environ.get("VERIF_C14_BUDGET_S", "900")) if ctx.thorough else 1e9
     t0 = time.time()
 
@@ -956,6 +1073,11 @@ def run(ctx):
     ctx.extra["depth_bound_per_shape"] = {"%dx%d" % (c[1], c[2]): c[6] for c in _CFGS if c[0] == "api" and c[3:6] == ("nondiv", "nondiv", "letters")}
     ctx.extra["configurations"] = len(_CFGS)
     ctx.extra["strict_paragraph_model_mismatches"] = ctx.counters.pop("strict_paragraph_mismatch", 0)
+    n_oos = ctx.counters.pop("size_assignments_from_out_of_sync_frame", 0)
+    ctx.extra["size_assignments_from_out_of_sync_frame"] = n_oos
+    if n_oos < 100 and not ctx.sets.get("viol"):
+        raise HarnessError("only %d row-height / column-width assignments were made on a table whose frame size did "
+                           "not equal the sum beforehand (floor 100)" % n_oos)
     per_shape = {}
     for ci, _canon in all_states:
         cfg = _CFGS[ci]
